@@ -26,6 +26,17 @@ def specSexp (S : Schema) (D : Doc) : Sexp :=
   let v := Valid.violated (Valid.ruleTable ++ Valid.extraRuleTable) S D
   .list (.atom "spec" :: Sexp.ofBool v.isEmpty :: v.map .str)
 
+/-- `rules` and `spec` at once: `violated (A ++ B) = violated A ++ violated B` (filter / map), so the implemented rules are
+evaluated once instead of twice -/
+def rulesAndSpec (S : Schema) (D : Doc) : Sexp × Sexp :=
+  let vr := Valid.violated Valid.ruleTable S D
+  let v := vr ++ Valid.violated Valid.extraRuleTable S D
+  (.list (.atom "rules" :: vr.map .str), .list (.atom "spec" :: Sexp.ofBool v.isEmpty :: v.map .str))
+
+def allSexp (S : Schema) (D : Doc) (sv : Sexp) : Sexp :=
+  let rs := rulesAndSpec S D
+  .list [.atom "all", errsSexp (CheckOp.checkOp S D), rs.1, rs.2, sv]
+
 def schemaSexp (S : Schema) : Sexp := .list [.atom "schema", Sexp.ofBool (Valid.schemaValidB S)]
 
 def withInput (ts d : Sexp) (k : Schema → Doc → Sexp) : Sexp :=
@@ -42,8 +53,7 @@ def handle : Sexp → Sexp
     match Dec.tsDoc ts with
     | some t => schemaSexp ⟨t⟩
     | none => Sexp.err "cannot decode tsdoc"
-  | .list [.atom "all", ts, d] => withInput ts d fun S D =>
-    .list [.atom "all", errsSexp (CheckOp.checkOp S D), rulesSexp S D, specSexp S D, schemaSexp S]
+  | .list [.atom "all", ts, d] => withInput ts d fun S D => allSexp S D (schemaSexp S)
   | .list (.atom "all*" :: ts :: ds) =>
     match Dec.tsDoc ts with
     | none => Sexp.err "cannot decode tsdoc"
@@ -52,7 +62,7 @@ def handle : Sexp → Sexp
       let sv := schemaSexp S
       .list (.atom "all*" :: ds.map fun d =>
         match Dec.doc d with
-        | some D => .list [.atom "all", errsSexp (CheckOp.checkOp S D), rulesSexp S D, specSexp S D, sv]
+        | some D => allSexp S D sv
         | none => Sexp.err "cannot decode doc")
   | .list [.atom "kinds.table"] =>
     .list (.atom "kinds" :: (Valid.ruleTable ++ Valid.extraRuleTable).map fun r =>
